@@ -10,8 +10,6 @@ import time
 import traceback
 
 sys.path.insert(0, os.path.dirname(os.path.dirname(os.path.abspath(__file__))))
-# snapshots recurse four frames per nesting level of a document; random editing histories nest deeply
-sys.setrecursionlimit(20000)
 
 
 def main():
